@@ -219,6 +219,12 @@ func (p *Program) localMods(sv *VC, f *ssa.Function, in ssa.Instruction, ms *Mod
 			}
 		}
 		if _, ok := c.Value.(*ssa.Function); !ok && !c.IsInvoke() {
+			if _, isB := c.Value.(*ssa.Builtin); !isB {
+				sv.callLogDecl()
+				note("Gcalls_n", false)
+				note("Gcalls_fn", false)
+				note("Gcalls_args", false)
+			}
 			if _, isClosure := c.Value.(*ssa.MakeClosure); !isClosure {
 				if tc := p.typedContract(c.Value.Type()); tc != nil {
 					tm := p.typedModSet(sv, tc)
